@@ -32,12 +32,18 @@ Proof. intro H. simpl. rewrite H. reflexivity. Qed.
 (* a failing rule (or break / continue) stops the sequence: nothing that
    follows is executed *)
 Lemma rules_lz_cons_err n r c c' e lz :
-  fr n c = (c', Some e) -> e <> ELBreak -> rules_lz fr (n :: r) c lz = (c', Some e).
-Proof. intros H N. simpl. rewrite H. destruct e; try reflexivity. congruence. Qed.
+  fr n c = (c', Some e) -> e <> ELBreak -> e <> ECont -> rules_lz fr (n :: r) c lz = (c', Some e).
+Proof. intros H N N2. simpl. rewrite H. destruct e; try reflexivity; congruence. Qed.
+
+(* a continue ends the block; if a lazybreak was seen earlier in the block the
+   iteration and the loop end together: the block reports a break *)
+Lemma rules_lz_cons_cont n r c c' lz :
+  fr n c = (c', Some ECont) -> rules_lz fr (n :: r) c lz = (c', if lz then Some EBreak else Some ECont).
+Proof. intro H. simpl. rewrite H. reflexivity. Qed.
 
 Lemma rules_cons_err n r c c' e :
   fr n c = (c', Some e) -> e <> ELBreak -> rules fr (n :: r) c = (c', Some e).
-Proof. apply rules_lz_cons_err. Qed.
+Proof. intros H N. unfold rules. simpl. rewrite H. destruct e; try reflexivity; congruence. Qed.
 
 (* [l] runs to its end: every rule succeeds or asks for a lazybreak *)
 Inductive block_clean : list node -> ctx -> bool -> ctx -> bool -> Prop :=
@@ -59,10 +65,10 @@ Qed.
 (* the error of a sequence is the error of its first failing rule, and the
    rules after it do not matter *)
 Lemma rules_err_prefix l1 n l2 l2' c c1 lz1 c2 e :
-  block_clean l1 c false c1 lz1 -> fr n c1 = (c2, Some e) -> e <> ELBreak ->
+  block_clean l1 c false c1 lz1 -> fr n c1 = (c2, Some e) -> e <> ELBreak -> e <> ECont ->
   rules fr (l1 ++ n :: l2) c = (c2, Some e) /\ rules fr (l1 ++ n :: l2') c = (c2, Some e).
 Proof.
-  intros H1 H2 N. unfold rules. rewrite !(rules_lz_app l1 c false c1 lz1) by exact H1.
+  intros H1 H2 N N2. unfold rules. rewrite !(rules_lz_app l1 c false c1 lz1) by exact H1.
   split; apply rules_lz_cons_err; assumption.
 Qed.
 
